@@ -5,7 +5,7 @@ import time, os, subprocess, tempfile, itertools
 import z3
 
 MAX_INST_PER_Q = 400
-MAX_TOTAL = 6000
+MAX_TOTAL = 3000
 
 
 # ---------------------------------------------------------------------------------------------------
@@ -115,8 +115,9 @@ def array_roots(a):
 
 
 class Inst:
-    def __init__(self, formulas, rounds=3):
+    def __init__(self, formulas, rounds=3, use_idx=False):
         self.rounds = rounds
+        self.use_idx = use_idx
         self.ground = []
         self.quants = []
         self.proxy_n = 0
@@ -248,36 +249,76 @@ class Inst:
                     val = z3.simplify(val)
                     cands[k][val.get_id()] = val
         # range-guard bounds: forall v. (lo <= v and v < hi) -> ...  gives the candidates lo and hi-1 (first / last element facts)
+        # guards: body = (g1 and g2 ...) -> C   or, after NNF,   (not g1) or (not g2) or ... or C
+        guards = []
         if z3.is_implies(body):
             g = body.children()[0]
-            atoms = list(g.children()) if z3.is_and(g) else [g]
-            for a in atoms:
-                if a.num_args() != 2:
+            guards = list(g.children()) if z3.is_and(g) else [g]
+        elif z3.is_or(body):
+            flat, stack = [], list(body.children())
+            while stack:
+                x = stack.pop()
+                if z3.is_or(x):
+                    stack.extend(x.children())
+                else:
+                    flat.append(x)
+            for lit in flat:
+                if z3.is_not(lit):
+                    guards.append(lit.children()[0])
+                elif z3.is_app(lit) and lit.num_args() == 2 and lit.decl().kind() in (z3.Z3_OP_LE, z3.Z3_OP_GE, z3.Z3_OP_LT, z3.Z3_OP_GT):
+                    l, r = lit.children()
+                    neg = {z3.Z3_OP_LE: l > r, z3.Z3_OP_GE: l < r, z3.Z3_OP_LT: l >= r, z3.Z3_OP_GT: l <= r}[lit.decl().kind()]
+                    guards.append(neg)
+        for a in guards:
+            if not z3.is_app(a) or a.num_args() != 2:
+                continue
+            l, r = a.children()
+            k = a.decl().kind()
+            for var, other, side in ((l, r, 'L'), (r, l, 'R')):
+                if not z3.is_var(var) or has_var(other, cache) or not z3.is_int(var):
                     continue
-                l, r = a.children()
-                k = a.decl().kind()
-                for var, other, side in ((l, r, 'L'), (r, l, 'R')):
-                    if not z3.is_var(var) or has_var(other, cache) or not z3.is_int(var):
-                        continue
-                    vi = z3.get_var_index(var)
-                    val = None
-                    if (k == z3.Z3_OP_LE and side == 'R') or (k == z3.Z3_OP_GE and side == 'L'):      # other <= v / v >= other
-                        val = other
-                    elif (k == z3.Z3_OP_LT and side == 'L') or (k == z3.Z3_OP_GT and side == 'R'):    # v < other / other > v
-                        val = other - 1
-                    elif (k == z3.Z3_OP_LE and side == 'L') or (k == z3.Z3_OP_GE and side == 'R'):    # v <= other
-                        val = other
-                    elif (k == z3.Z3_OP_LT and side == 'R') or (k == z3.Z3_OP_GT and side == 'L'):    # other < v
-                        val = other + 1
-                    if val is not None and cands[vi]:
-                        val = z3.simplify(val)
-                        cands[vi][val.get_id()] = val
+                vi = z3.get_var_index(var)
+                val = None
+                if (k == z3.Z3_OP_LE and side == 'R') or (k == z3.Z3_OP_GE and side == 'L'):      # other <= v / v >= other
+                    val = other
+                elif (k == z3.Z3_OP_LT and side == 'L') or (k == z3.Z3_OP_GT and side == 'R'):    # v < other / other > v
+                    val = other - 1
+                elif (k == z3.Z3_OP_LE and side == 'L') or (k == z3.Z3_OP_GE and side == 'R'):    # v <= other
+                    val = other
+                elif (k == z3.Z3_OP_LT and side == 'R') or (k == z3.Z3_OP_GT and side == 'L'):    # other < v
+                    val = other + 1
+                if val is not None and cands[vi] and self.use_idx:
+                    val = z3.simplify(val)
+                    cands[vi][val.get_id()] = val
+                if val is not None and self.use_idx and len(self.idx_consts) <= 16:
+                    cands[vi].update(self.idx_consts)      # index-like skolem constants for range-guarded variables
         return cands
+
+    def index_constants(self, forms):
+        """ground integer terms that are asserted non-negative somewhere (skolem indices of negated universal goals, loop counters):
+        extra candidates for range-guarded integer variables"""
+        out = {}
+
+        def visit(f):
+            if z3.is_and(f) or z3.is_or(f) or z3.is_not(f) or z3.is_implies(f):
+                for c in f.children():
+                    visit(c)
+                return
+            if z3.is_app(f) and f.num_args() == 2 and f.decl().kind() in (z3.Z3_OP_LE, z3.Z3_OP_GE):
+                l, r = f.children()
+                for a, b, k in ((l, r, f.decl().kind()), (r, l, z3.Z3_OP_GE if f.decl().kind() == z3.Z3_OP_LE else z3.Z3_OP_LE)):
+                    # b <= a  with b == 0  -> a is index-like
+                    if k == z3.Z3_OP_GE and z3.is_int_value(b) and b.as_long() == 0 and z3.is_int(a) and not z3.is_int_value(a) and z3.is_const(a):
+                        out[a.get_id()] = a
+        for f in forms:
+            visit(f)
+        return out
 
     def run(self, timeout_ms=10000):
         t0 = time.time()
         instances = {}
         forms = list(self.ground)
+        self.idx_consts = self.index_constants(forms)
         for rnd in range(self.rounds):
             allf = forms + list(instances.values())
             reads, apps = self.ground_reads(allf)
@@ -340,7 +381,89 @@ def nnf_skolem(formulas):
     return out
 
 
-def prove(hyps, goal, timeout_ms=10000, rounds=3, want_model=False, fallbacks=True):
+def symbols_of(f, cache={}):
+    k = f.get_id()
+    hit = cache.get(k)
+    if hit is not None and hit[0].eq(f):
+        return hit[1]
+    out = set()
+    seen = set()
+    stack = [f]
+    while stack:
+        x = stack.pop()
+        i = x.get_id()
+        if i in seen:
+            continue
+        seen.add(i)
+        if z3.is_quantifier(x):
+            stack.append(x.body())
+            continue
+        if z3.is_app(x):
+            if x.decl().kind() == z3.Z3_OP_UNINTERPRETED:
+                out.add(x.decl().name())
+            stack.extend(x.children())
+    cache[k] = (f, out)
+    return out
+
+
+def relevant(hyps, goal, depth):
+    """hypotheses connected to the goal through at most `depth` shared-symbol steps (a subset: proving from it is sound)"""
+    syms = set(symbols_of(goal))
+    chosen = [False] * len(hyps)
+    hs = [symbols_of(h) for h in hyps]
+    for _ in range(depth):
+        new = set()
+        for i, h in enumerate(hyps):
+            if not chosen[i] and (hs[i] & syms or not hs[i]):
+                chosen[i] = True
+                new |= hs[i]
+        if not new - syms:
+            break
+        syms |= new
+    return [h for i, h in enumerate(hyps) if chosen[i]]
+
+
+def prove(hyps, goal, timeout_ms=10000, rounds=5, want_model=False, fallbacks=True):
+    """1. deterministic instantiation over all hypotheses; 2. the same over only the hypotheses near the goal (any subset is sound),
+    with index-like skolem constants as extra candidates; 3. all hypotheses with those candidates; 4. z3 quantifiers; 5. cvc5."""
+    t0 = time.time()
+    forms = list(hyps) + [z3.Not(goal)]
+    if not any(has_quant(f) for f in forms):
+        return _prove(hyps, goal, timeout_ms, rounds, want_model, fallbacks)
+    first = _prove(hyps, goal, timeout_ms, 3, want_model, False)
+    if first['status'] == 'proved' or not fallbacks:
+        return first
+    # quick shot of z3's own quantifier engine (many obligations fall to it within a second)
+    qs = z3.Solver()
+    qs.set('timeout', 2500)
+    qs.set('random_seed', 0)
+    qs.add(forms)
+    if qs.check() == z3.unsat:
+        return {'status': 'proved', 'backend': 'z3-quant', 'secs': time.time() - t0, 'n_inst': first.get('n_inst', 0), 'model': None}
+    if len(hyps) > 8:
+        # locality: the most recent hypotheses (facts of the last few statements) are tried first, then symbol-relevance closures
+        subsets = [('recent %d' % k, list(hyps[-k:])) for k in (6, 12, 24) if k < len(hyps)]
+        for depth in (1, 2, 3):
+            sub = relevant(hyps, goal, depth)
+            if len(sub) < len(hyps):
+                subsets.append(('relevance %d' % depth, sub))
+        for tag, sub in subsets:
+            depth = tag
+            try:
+                inst = Inst(nnf_skolem(list(sub) + [z3.Not(goal)]), rounds=rounds, use_idx=True)
+                r, _ = inst.run(min(timeout_ms, 4000))
+                if r == 'unsat':
+                    return {'status': 'proved', 'backend': 'inst+z3-qf(%s)' % depth, 'secs': time.time() - t0, 'n_inst': inst.n_inst, 'model': None}
+            except Exception:
+                break
+    res = _prove(hyps, goal, timeout_ms, rounds, want_model, True, use_idx=True)
+    res['secs'] = time.time() - t0
+    if res['status'] != 'proved' and first.get('model') and not res.get('model'):
+        res['model'] = first['model']
+    return res
+
+
+def _prove(hyps, goal, timeout_ms=10000, rounds=5, want_model=False, fallbacks=True, use_idx=False):
     """Returns dict(status='proved'|'failed'|'unknown', backend, secs, n_inst, model)."""
     t0 = time.time()
     neg = z3.Not(goal)
@@ -359,7 +482,7 @@ def prove(hyps, goal, timeout_ms=10000, rounds=3, want_model=False, fallbacks=Tr
     inst_verdict = None
     try:
         nf = nnf_skolem(forms)
-        inst = Inst(nf, rounds=rounds)
+        inst = Inst(nf, rounds=rounds, use_idx=use_idx)
         r, m = inst.run(timeout_ms)
         n_inst = inst.n_inst
         if r == 'unsat':
